@@ -440,6 +440,202 @@ fn byte_coverage<S: ShortGroupSignatureScheme + 'static>(em: &mut Emitter, rng: 
     }
 }
 
+/// what a hand-written encrypt-and-decrypt holder may choose freely
+struct VedChoice {
+    /// scalar put into c2 and decomposed into bytes
+    enc: Scalar,
+    /// claim whose text goes into the symmetric part
+    text_of: ClaimData,
+    /// generator written into the proof
+    carried: G1Projective,
+    /// generator used for the message term of c2 / r2 and of the byte ciphertexts
+    used: G1Projective,
+}
+
+/// A hand-written holder for (one signature statement + one encrypt-and-decrypt statement): commit – challenge –
+/// response with its own randomness, deviating in the choices of `VedChoice`.
+fn hand_ved<S: ShortGroupSignatureScheme>(scn: &Scn<S>, rng: &mut Rng, choose: impl Fn(&VerifiableEncryptionDecryptionStatement<G1Projective>, &ClaimData, Scalar) -> VedChoice) -> Option<Presentation<S>> {
+    use aes_gcm::aead::{Aead, KeyInit, Payload};
+    use aes_gcm::{Aes128Gcm, Nonce};
+    let sid = &scn.sig_ids[0];
+    let ss = match &scn.schema.statements[sid] {
+        Statements::Signature(s) => s,
+        _ => return None,
+    };
+    let ve = scn.schema.statements.values().find_map(|s| if let Statements::VerifiableEncryptionDecryption(v) = s { Some(v) } else { None })?;
+    let cred = &scn.bundles[0].credential;
+    let msgs: Vec<Scalar> = cred.claims.iter().map(|c| c.to_scalar()).collect();
+    let labels: Vec<String> = ss.issuer.schema.claim_indices.iter().cloned().collect();
+    let n_m = rng.scalar();
+    let mut dm: IndexMap<String, ClaimData> = IndexMap::new();
+    let mut inner: IndexMap<usize, Scalar> = IndexMap::new();
+    let pm: Vec<ProofMessage<Scalar>> = (0..msgs.len())
+        .map(|i| {
+            if ss.disclosed.contains(&labels[i]) {
+                dm.insert(labels[i].clone(), cred.claims[i].clone());
+                inner.insert(i, msgs[i]);
+                ProofMessage::Revealed(msgs[i])
+            } else if i == ve.claim {
+                ProofMessage::Hidden(HiddenMessage::ExternalBlinding(msgs[i], n_m))
+            } else {
+                ProofMessage::Hidden(HiddenMessage::ProofSpecificBlinding(msgs[i]))
+            }
+        })
+        .collect();
+    let pok = S::commit_signature_pok(cred.signature.clone(), &ss.issuer.verifying_key, &pm, rng.chacha()).ok()?;
+    let mut t = merlin::Transcript::new(b"credx presentation");
+    for (l, d) in public_prefix(&scn.schema, &scn.nonce) {
+        let label: &'static [u8] = Box::leak(l.into_boxed_slice());
+        t.append_message(label, &d);
+    }
+    for (l, d) in disclosed_items(sid, &dm) {
+        let label: &'static [u8] = Box::leak(l.into_boxed_slice());
+        t.append_message(label, &d);
+    }
+    pok.add_proof_contribution(&mut t);
+    let ch = choose(ve, &cred.claims[ve.claim], msgs[ve.claim]);
+    let (g, mg, k) = (G1Projective::GENERATOR, ch.used, ve.encryption_key.0);
+    let (b, r) = (rng.scalar(), rng.scalar());
+    let (c1, c2) = (g * b, mg * ch.enc + k * b);
+    let (r1, r2) = (g * r, mg * n_m + k * r);
+    t.append_message(b"", ve.id.as_bytes());
+    t.append_message(b"c1", c1.to_compressed().as_slice());
+    t.append_message(b"c2", c2.to_compressed().as_slice());
+    t.append_message(b"r1", r1.to_compressed().as_slice());
+    t.append_message(b"r2", r2.to_compressed().as_slice());
+    let bytes = ch.enc.to_be_bytes();
+    let shift = Scalar::from(256u64);
+    let mut bi = [Scalar::ZERO; 32];
+    let mut bbi = [Scalar::ZERO; 32];
+    let mut nbi = [Scalar::ZERO; 32];
+    let mut sum = Scalar::ZERO;
+    for i in 0..31 {
+        bi[i] = rng.scalar();
+        sum += bi[i] * shift.pow([31 - i as u64]);
+    }
+    bi[31] = b - sum;
+    let mut ct = Ciphertext::default();
+    // the byte part is always verified under the statement's generator
+    let smg = ve.message_generator;
+    for i in 0..32 {
+        bbi[i] = rng.scalar();
+        nbi[i] = rng.scalar();
+        ct.c1[i] = g * bi[i];
+        ct.c2[i] = smg * Scalar::from(bytes[i] as u64) + k * bi[i];
+        t.append_u64(b"verifiable_encryption_decryption_message_byte_index", i as u64);
+        t.append_message(b"byte_proof_c1", ct.c1[i].to_compressed().as_slice());
+        t.append_message(b"byte_proof_c2", ct.c2[i].to_compressed().as_slice());
+        t.append_message(b"byte_proof_r1", (g * bbi[i]).to_compressed().as_slice());
+        t.append_message(b"byte_proof_r2", (smg * nbi[i] + k * bbi[i]).to_compressed().as_slice());
+    }
+    // symmetric part
+    let text = ch.text_of.to_text();
+    let mut at = merlin::Transcript::new(b"PresentationEncryptionDecryption arbitrary data derive aes key");
+    at.append_message(b"key ikm", (k * b).to_compressed().as_slice());
+    let mut okm = [0u8; 32];
+    at.challenge_bytes(b"aes key", &mut okm);
+    let nonce = rng.bytes(12);
+    let aad: Vec<u8> = okm[16..].iter().copied().chain(c1.to_compressed()).chain(c2.to_compressed()).collect();
+    let key = aes_gcm::Key::<Aes128Gcm>::from_slice(&okm[..16]);
+    let mut ciphertext = nonce.clone();
+    ciphertext.extend(Aes128Gcm::new(key).encrypt(Nonce::from_slice(&nonce), Payload { msg: text.as_bytes(), aad: &aad }).ok()?);
+    t.append_message(b"arbitrary_data_ciphertext", &ciphertext);
+    let mut okm = [0u8; 64];
+    t.challenge_bytes(b"challenge bytes", &mut okm);
+    let c = Scalar::from_bytes_wide(&okm);
+    let sig_proof = pok.generate_proof(c).ok()?;
+    let mut byte_proofs = [ByteProof::default(); 32];
+    for i in 0..32 {
+        byte_proofs[i] = ByteProof { message: nbi[i] + c * Scalar::from(bytes[i] as u64), blinder: bbi[i] + c * bi[i] };
+    }
+    let mut rt = merlin::Transcript::new(b"PresentationEncryptionDecryption byte range proof");
+    rt.append_message(b"challenge", &c.to_be_bytes());
+    let values: Vec<u64> = bytes.iter().map(|x| *x as u64).collect();
+    let (range_proof, _) = bulletproofs::RangeProof::prove_multiple(&bulletproofs::BulletproofGens::new(8, 32), &bulletproofs::PedersenGens { B: smg, B_blinding: k }, &mut rt, &values, &bi, 8).ok()?;
+    let mut proofs: IndexMap<String, PresentationProofs<S>> = IndexMap::new();
+    proofs.insert(sid.clone(), SignatureProof::<S> { id: sid.clone(), disclosed_messages: inner, pok: sig_proof }.into());
+    proofs.insert(
+        ve.id.clone(),
+        VerifiableEncryptionDecryptionProof { id: ve.id.clone(), message_generator: ch.carried, byte_proofs, range_proof, c1, c2, blinder_proof: r + c * b, byte_ciphertext: ct, ciphertext }.into(),
+    );
+    let mut disclosed_messages = IndexMap::new();
+    disclosed_messages.insert(sid.clone(), dm);
+    Some(Presentation { proofs, challenge: c, disclosed_messages })
+}
+
+/// deviating encrypt-and-decrypt holders (hand-written prover): another text in the symmetric part, another scalar in
+/// the ciphertext, the generator carried in the proof rescaled so that the substituted claim matches, the identity as
+/// carried / used generator with zero encrypted. Oracle: accepted ⇒ decrypt_and_verify returns the signed claim.
+fn ved_deviations<S: ShortGroupSignatureScheme + 'static>(em: &mut Emitter, rng: &mut Rng, suite: &str) {
+    for ci in if em.thorough() { vec![1usize, 2, 3] } else { vec![1usize + (em.seed % 3) as usize] } {
+        let mix = Mix { n_creds: 1, n_claims: 5, age: rng.range(1, 90), disclosed: vec![vec!["city".to_string()]], ved: Some(ci), ..Default::default() };
+        let scn = Scn::<S>::build(rng, &mix);
+        let sk = scn.issuers[0].verifiable_decryption_key.clone();
+        let signed = scn.bundles[0].credential.claims[ci].clone();
+        let other: ClaimData = match &signed {
+            ClaimData::Hashed(_) => HashedClaim::from("Jane Roe").into(),
+            ClaimData::Number(n) => NumberClaim::from(n.value + 1).into(),
+            _ => ScalarClaim::from(rng.scalar()).into(),
+        };
+        let (o1, o2, o3, o4, o5, o6, o7) = (other.clone(), other.clone(), other.clone(), other.clone(), other.clone(), other.clone(), other.clone());
+        let ident = G1Projective::IDENTITY;
+        type Ch = Box<dyn Fn(&VerifiableEncryptionDecryptionStatement<G1Projective>, &ClaimData, Scalar) -> VedChoice>;
+        let cases: Vec<(&str, Ch)> = vec![
+            ("honest", Box::new(|st, cl, m| VedChoice { enc: m, text_of: cl.clone(), carried: st.message_generator, used: st.message_generator })),
+            ("other-text", Box::new(move |st, _, m| VedChoice { enc: m, text_of: o1.clone(), carried: st.message_generator, used: st.message_generator })),
+            ("other-scalar-and-text", Box::new(move |st, _, _| VedChoice { enc: o2.to_scalar(), text_of: o2.clone(), carried: st.message_generator, used: st.message_generator })),
+            ("carried-generator-rescaled-to-other-text", Box::new(move |st, _, m| {
+                let ratio = m * Option::<Scalar>::from(o3.to_scalar().invert()).unwrap_or(Scalar::ONE);
+                VedChoice { enc: m, text_of: o3.clone(), carried: st.message_generator * ratio, used: st.message_generator }
+            })),
+            ("identity-carried-zero-encrypted-other-text", Box::new(move |st, _, _| VedChoice { enc: Scalar::ZERO, text_of: o4.clone(), carried: ident, used: st.message_generator })),
+            ("identity-used-and-carried-other-text", Box::new(move |_, _, m| VedChoice { enc: m, text_of: o5.clone(), carried: ident, used: ident })),
+            ("identity-used-and-carried-zero-encrypted-other-text", Box::new(move |_, _, _| VedChoice { enc: Scalar::ZERO, text_of: o6.clone(), carried: ident, used: ident })),
+            ("identity-used-zero-encrypted-other-text", Box::new(move |st, _, _| VedChoice { enc: Scalar::ZERO, text_of: o7.clone(), carried: st.message_generator, used: ident })),
+        ];
+        for (name, ch) in cases {
+            em.oracle_case(&format!("{} hand-ved {} claim {}", suite, name, ci));
+            let q = match call_opt(|| hand_ved(&scn, rng, |a, b, c| ch(a, b, c))) {
+                Out::Ok(q) => q,
+                _ => {
+                    em.count(&format!("hand-ved:{}:not-built", name));
+                    continue;
+                }
+            };
+            let acc = scn.verify(&q).is_ok();
+            em.count(&format!("hand-ved:{}:{}", name, if acc { "accepted" } else { "rejected" }));
+            let replay = scn.replay(json!({"suite": suite, "deviation": name, "claim_index": ci, "presentation": serde_json::to_value(&q).unwrap_or_default()}));
+            if name == "honest" {
+                if !acc {
+                    em.violation("c10:harness-hand-ved-broken", format!("{}: the hand-written encrypt-and-decrypt holder is rejected when it follows the protocol (harness self-check)", suite), replay);
+                    break;
+                }
+                continue;
+            }
+            if !acc {
+                continue;
+            }
+            for pr in q.proofs.values() {
+                if let PresentationProofs::VerifiableEncryptionDecryption(v) = pr {
+                    // group decryption of an accepted proof is the signed claim's encoding under the statement's generator
+                    let stg = scn.schema.statements.values().find_map(|s| if let Statements::VerifiableEncryptionDecryption(x) = s { Some(x.message_generator) } else { None }).unwrap();
+                    if v.c2 - v.c1 * sk.0 != stg * signed.to_scalar() {
+                        em.violation(&format!("c10:ved-group-decryption-differs:{}", name), format!("{}: accepted encrypt-and-decrypt proof does not decrypt to the signed claim's group encoding (deviation {})", suite, name), replay.clone());
+                    }
+                    match call(|| v.decrypt_and_verify(&sk)) {
+                        Out::Ok(c) if crate::claims::claim_str(&c) == crate::claims::claim_str(&signed) => em.count("hand-ved:accepted-decrypts-to-signed"),
+                        Out::Ok(c) => em.violation(&format!("c10:ved-decrypts-to-unsigned-claim:{}", name), format!("{}: accepted encrypt-and-decrypt proof decrypts to {} although {} was signed (deviation {})", suite, crate::claims::claim_str(&c), crate::claims::claim_str(&signed), name), replay.clone()),
+                        // the text of the symmetric part cannot be checked without the key: a proof whose text does not fit
+                        // is accepted and then refused by decrypt_and_verify — no claim is returned (counted, not judged)
+                        Out::Err => em.count(&format!("hand-ved:{}:accepted-no-claim-returned", name)),
+                        Out::Panic(m) => em.violation("c10:ved-panic", format!("{}: decrypt_and_verify panicked: {}", suite, m), replay.clone()),
+                    }
+                }
+            }
+        }
+    }
+}
+
 /// scalars anybody can compute from a domain string (hash-to-field under common expanders and domain-separation tags,
 /// plain digests reduced mod r)
 fn public_scalars_of(domain: &[u8]) -> Vec<(String, Scalar)> {
@@ -539,7 +735,8 @@ pub fn gen_c10(em: &mut Emitter, rng: &mut Rng) {
     em.rule = "both encryption statements on every claim type, with and without scalar decryption, G1 and random message generators: honest runs \
                (accepted; decrypt = m·M; decrypt_scalar = m; decrypt_and_verify = the signed claim; stable pseudonym per generator); deviating holders: \
                decryptable part omitted under the verifier's transcript (steered prover), a hand-written holder decomposing the scalar into the bytes of \
-               m + r or of another value, generator field swapped in the encrypt-and-decrypt proof; scalar decryption of values whose encodings cover all 256 byte values (negative numbers, r-1, 255); \
+               m + r or of another value, generator field swapped in the encrypt-and-decrypt proof; a hand-written encrypt-and-decrypt holder \
+               (other text in the symmetric part, other scalar, carried generator rescaled to fit a substitute claim, identity as carried / used generator with zero encrypted): accepted ⇒ decrypts to the signed claim; scalar decryption of values whose encodings cover all 256 byte values (negative numbers, r-1, 255); \
                domain generators (`create_domain_proof_generator`): stable, distinct, not k·G for any of ~30 publicly computable scalars k of the domain string, \
                and the decrypted pseudonyms of one credential in two domains not related by such scalars".into();
     suite_run::<Bbs>(em, rng, "bbs");
@@ -553,8 +750,10 @@ pub fn gen_c10(em: &mut Emitter, rng: &mut Rng) {
     }
     if em.mine(base + 2) {
         domain_pseudonyms::<Bbs>(em, &mut rng.sub(7003), "bbs");
+        ved_deviations::<Ps>(em, &mut rng.sub(7006), "ps");
     }
     if em.mine(base + 3) {
         domain_pseudonyms::<Ps>(em, &mut rng.sub(7004), "ps");
+        ved_deviations::<Bbs>(em, &mut rng.sub(7005), "bbs");
     }
 }
